@@ -27,6 +27,7 @@ typedef struct {
 } impl_t;
 
 static impl_t A, B; /* A: messageq_init, B: MESSAGEQ_VAR_INIT */
+static uint8_t *B_block;
 static int D, M, SLACK;
 static size_t base_len;
 
@@ -60,13 +61,14 @@ static void fail(const char *clause, const char *fmt, ...)
 static void setup(int depth, int msg, int slack)
 {
 	free(A.store);
-	free(B.store);
+	free(B_block);
 	D = depth;
 	M = msg;
 	SLACK = slack;
 	base_len = (size_t)D * (size_t)M + (size_t)slack;
 	A.store = malloc(base_len);
-	B.store = malloc(base_len);
+	B_block = malloc(base_len + 8); /* the twin's storage starts 8 bytes into its block */
+	B.store = B_block + 8;
 	if (base_len <= 65536) {
 		memset(A.store, 0xA7, base_len);
 		memset(B.store, 0xA7, base_len);
@@ -76,7 +78,11 @@ static void setup(int depth, int msg, int slack)
 	}
 	memset(&A.q, 0x55, sizeof(A.q));
 	messageq_init(&A.q, A.store, base_len, (size_t)M);
-	messageq_t tmp = MESSAGEQ_VAR_INIT(B.store, base_len, M);
+	/* the static initialiser is handed expressions (non-byte pointer arithmetic, sums): macro hygiene */
+	uint32_t *words = (uint32_t *)B_block;
+	size_t len_a = base_len / 3, len_b = base_len - len_a;
+	int m_a = M / 2, m_b = M - m_a;
+	messageq_t tmp = MESSAGEQ_VAR_INIT(words + 2, len_a + len_b, m_a + m_b);
 	memcpy(&B.q, &tmp, sizeof(tmp));
 	for (int i = 0; i < 32; i++)
 		state[i] = FREE;
